@@ -430,8 +430,40 @@ func newResolver(l *Loaded, info *types.Info, fn ast.Node) *resolver {
 		}
 		return true
 	})
+	// Parameters, named results and receivers get their first value from the call: an
+	// assignment to one of them is never its only definition.
+	params := map[types.Object]bool{}
+	ast.Inspect(fn, func(n ast.Node) bool {
+		var ft *ast.FuncType
+		switch v := n.(type) {
+		case *ast.FuncDecl:
+			ft = v.Type
+			if v.Recv != nil {
+				for _, f := range v.Recv.List {
+					for _, nm := range f.Names {
+						params[info.Defs[nm]] = true
+					}
+				}
+			}
+		case *ast.FuncLit:
+			ft = v.Type
+		}
+		if ft != nil {
+			for _, lst := range []*ast.FieldList{ft.Params, ft.Results} {
+				if lst == nil {
+					continue
+				}
+				for _, f := range lst.List {
+					for _, nm := range f.Names {
+						params[info.Defs[nm]] = true
+					}
+				}
+			}
+		}
+		return true
+	})
 	for obj, c := range count {
-		if c != 1 {
+		if c != 1 || params[obj] {
 			delete(r.defs, obj)
 		}
 	}
@@ -1415,8 +1447,8 @@ func (db *SiteDB) analyse(fi *FuncInfo) {
 		}
 		returnsErr := false
 		if rl := sub.Inl.Type.Results; rl != nil && len(rl.List) > 0 {
-			if t := info.TypeOf(rl.List[len(rl.List)-1].Type); t != nil && t.String() == "error" {
-				returnsErr = true
+			if t := info.TypeOf(rl.List[len(rl.List)-1].Type); t != nil && (t.String() == "error" || t.String() == "bool") {
+				returnsErr = true // an error or a predicate result: the caller can test it
 			}
 		}
 		// Only a callee whose error result the caller can test correlates its internal
